@@ -1,3 +1,3 @@
 #!/bin/sh
 # replays this counterexample against the real build
-cd /tmp/dbg_x && VERIF_SCRIPT=/verif/replays/C12/VHarnessSigAllSwapP2PK_a2b709b0_0/script.json VERIF_RAW_SALT=0 GOFLAGS=-mod=mod GOPROXY=off go test -vet=off -count=1 -overlay /verif/replays/C12/VHarnessSigAllSwapP2PK_a2b709b0_0/overlay.json -run ^TestVerifReplay_VHarnessSigAllSwapP2PK$ -v ./mint
+cd /tmp/seedrepo_C12b && VERIF_SCRIPT=/verif/replays/C12/VHarnessSigAllSwapP2PK_a2b709b0_0/script.json VERIF_RAW_SALT=0 GOFLAGS=-mod=mod GOPROXY=off go test -vet=off -count=1 -overlay /verif/replays/C12/VHarnessSigAllSwapP2PK_a2b709b0_0/overlay.json -run ^TestVerifReplay_VHarnessSigAllSwapP2PK$ -v ./mint
